@@ -28,10 +28,15 @@ fn any_payload_byte() -> u8 {
 }
 
 pub fn any_plan(two_messages: bool) -> Plan {
+    any_plan_bounded(two_messages, 2, 4)
+}
+
+/// `max_payload` <= 2 payload bytes per message, 1..=`max_chunks` (<= 4) chunks.
+pub fn any_plan_bounded(two_messages: bool, max_payload: usize, max_chunks: usize) -> Plan {
     let p1: usize = kani::any();
-    kani::assume(p1 <= 2);
+    kani::assume(p1 <= max_payload);
     let p2: usize = kani::any();
-    kani::assume(p2 <= 2);
+    kani::assume(p2 <= max_payload);
     let mut stream = [0u8; MAX_STREAM];
     let mut i = 0;
     let mut k = 0;
@@ -71,7 +76,7 @@ pub fn any_plan(two_messages: bool) -> Plan {
     // delimiter inside a message; with payload alphabet {x,],>} and <= 2 payload bytes an early
     // "]]>]]>" needs payload "]]>"-like prefixes, excluded here by construction check)
     let n: usize = kani::any();
-    kani::assume(n >= 1 && n <= 4);
+    kani::assume(n >= 1 && n <= max_chunks);
     let mut cut = [0usize; 4];
     let mut prev = 0usize;
     k = 0;
